@@ -4,7 +4,8 @@
 import WinterProofs.Lemmas.C14Arith
 
 namespace WinterProofs.C14
-open Model.Parallel Model.Fft
+open Model.Parallel
+open Model.Fft (brev permuteIndex isPow2)
 
 theorem merkleLoop_lt (S fuel start bs : Nat) (h : start < S) : merkleLoop S fuel start bs = [] := by
   cases fuel with
